@@ -1531,7 +1531,7 @@ class RawAlgorithmsMixIn:
             y_data[0,p,...] = numpy.linalg.solve(A_data[0,p,...], x_data[...])
 
         # d = 1,...,D-1
-        tmp = numpy.zeros((M,K),dtype=float)
+        tmp = numpy.zeros((M,K),dtype=y_data.dtype)
         for d in range(1, D):
             for p in range(P):
                 tmp[:,:] = 0.
